@@ -91,11 +91,11 @@ func init() {
 
 	register(&propertySpec{
 		ID: "C04", NeedCG: true, Quick: cfgAMD, Thorough: cfgAll,
-		Explanation: "Decides the structural conditions of the PAR1 round trip: encoder and decoder construct the same coder - reedsolomon.New(len(fileData), parity, WithPAR1Matrix()) - (PAIR); a data file counts as usable only after both hashes matched its entry, a parity volume only with verified control hash, the index volume's set hash and the volume number of its file name (GATE); the counts are incremented on the right edges and the verdict predicates equal the stated table (DECIDE); the coder's too-few-shards / singular error reaches the caller unchanged, where the classifier compares it by identity (ERRFLOW on the PAR1 chain, PAIR-ERRTYPE); the padding length is shown non-negative before make() (MKLEN).",
+		Explanation: "Decides the structural conditions of the PAR1 round trip: encoder and decoder construct the same coder - reedsolomon.New(len(fileData), parity, WithPAR1Matrix()) - (PAIR); a data file counts as usable only after both hashes matched its entry, a parity volume only with verified control hash, the index volume's set hash and the volume number of its file name, and the probing loop covers exactly the volume numbers 1..max (GATE); the counts are incremented on the right edges and the verdict predicates equal the stated table (DECIDE); the coder's too-few-shards / singular error reaches the caller unchanged, where the classifier compares it by identity (ERRFLOW on the PAR1 chain, PAIR-ERRTYPE); the padding length is shown non-negative before make() (MKLEN).",
 		NotDecided:  []string{"the matrix algebra inside klauspost/reedsolomon", "the range of volume numbers probed and padding arithmetic as values", "UTF-16 name handling beyond using unicode/utf16 on both sides (C10)"},
 		Run: func(w *World, r *Report, tier string) {
 			guard(r, "PAIR", func() { rulePAIRpar1(w, r); rulePAIRERRTYPE(w, r) })
-			guard(r, "GATE", func() { ruleGATE(w, r, gateOpts{par1: true}) })
+			guard(r, "GATE", func() { ruleGATE(w, r, gateOpts{par1: true, probe: true}) })
 			guard(r, "DECIDE", func() {
 				ruleDECIDEPredicates(w, r, map[string]bool{"par1": true})
 				ruleDECIDECounts(w, r, map[string]bool{"par1": true})
@@ -183,11 +183,11 @@ func init() {
 	register(&propertySpec{
 		ID: "C10", NeedCG: true, Quick: cfgAMD, Thorough: cfgAll,
 		Explanation: "Compares the PAR1 writer and reader with tables transcribed from the PAR 1.0 specification: header and entry layouts, identification string, version (low 32 bits only on the reader - the high half is the generator id), file list offset 0x60, control hash over bytes from 0x20 on both sides, status bit 0, the 16 KiB prefix, little-endian only (CONST par1); names go through unicode/utf16 on both sides and the PAR1 matrix option is used on both sides (PAIR); the set hash and the data shards cover saved entries only, and a slice that is a filtered image of the entry list is never used to index the unfiltered list (GATE, IDXDOM); table lookups on header fields stay in range (RANGE).",
-		NotDecided:  []string{"the parity byte values (GF(2^8) arithmetic in klauspost/reedsolomon)", "which volume numbers are probed"},
+		NotDecided:  []string{"the parity byte values (GF(2^8) arithmetic in klauspost/reedsolomon)"},
 		Run: func(w *World, r *Report, tier string) {
 			guard(r, "CONST", func() { ruleCONST(w, r, constOpts{par1: true}) })
 			guard(r, "PAIR", func() { rulePAIRpar1(w, r) })
-			guard(r, "GATE", func() { ruleGATE(w, r, gateOpts{par1: true}) })
+			guard(r, "GATE", func() { ruleGATE(w, r, gateOpts{par1: true, probe: true}) })
 			guard(r, "IDXDOM", func() { ruleIDXDOM(w, r) })
 			guard(r, "RANGE", func() { ruleRANGE(w, r, []string{"par1"}, 0) })
 		},
